@@ -493,6 +493,258 @@ def infiled_filtered(chk, F, rule):
     return n
 
 
+# ---- R08f: reverse maps that drive removal are complete --------------------------------------------------------------
+INSERTING = ("::insert", "::entry", "::push", "::extend", "::or_insert", "::or_default", "::or_insert_with", "::push_back", "::append")
+# (index, driven field, method) -> reason: inserts whose per-file registration happens in a sibling call of the same analyzer step
+REVERSE_MAP_EXEMPT = {
+    ("LuaTypeIndex", "generic_params", "add_generic_params"):
+        "keyed by a LuaTypeDeclId the same file registered through add_type_decl (decl analyzer creates the decl before the "
+        "doc analyzer attaches generic params to it); removal of the last location drops the entry",
+    ("LuaTypeIndex", "supers", "add_super_type"):
+        "keyed by a LuaTypeDeclId the same file registered through add_type_decl; each element carries its own file id and is "
+        "filtered by R08e",
+}
+
+
+def _cname(c):
+    return c.get("r") or c.get("f") or ""
+
+
+def _self_field_borrows(b):
+    """field name -> locals holding `&mut self.<field>`"""
+    out = {}
+    for blk in b.blocks:
+        for st in blk[1]:
+            if st[0] == "a" and st[2][0] == "ref" and st[2][1] == "m" and st[2][2][0] == 1 and len(st[1]) == 1:
+                for e in st[2][2][1:]:
+                    if isinstance(e, list) and e[0] == "f":
+                        out.setdefault(e[2], set()).add(st[1][0])
+                        break
+    return out
+
+
+def _derived(b, seeds):
+    d = set(seeds)
+    changed = True
+    while changed:
+        changed = False
+        for blk in b.blocks:
+            for st in blk[1]:
+                if st[0] == "a" and len(st[1]) == 1 and st[1][0] not in d:
+                    rv = st[2]
+                    src = rv[2] if rv[0] == "ref" else (rv[1][1] if rv[0] == "use" and rv[1][0] in ("c", "m") else None)
+                    if src and src[0] in d:
+                        d.add(st[1][0])
+                        changed = True
+            t = blk[2]
+            if t[0] == "call" and len(t[1]["d"]) == 1 and t[1]["d"][0] not in d and \
+                    any(a[0] in ("c", "m") and a[1][0] in d for a in t[1]["a"][:1]):
+                d.add(t[1]["d"][0])
+                changed = True
+    return d
+
+
+def reverse_map_pairs(b):
+    """(R, M): remove takes self.R.remove(..) and loops over what it got, mutably borrowing self.M inside that loop"""
+    import cfgutil as _c
+    succ = b.succ_map()
+    loops = _c.natural_loops(succ, 0)
+    fb = _self_field_borrows(b)
+    per_block = {}
+    for bi, blk in enumerate(b.blocks):
+        for st in blk[1]:
+            if st[0] == "a" and st[2][0] == "ref" and st[2][1] == "m" and st[2][2][0] == 1:
+                for e in st[2][2][1:]:
+                    if isinstance(e, list) and e[0] == "f":
+                        per_block.setdefault(bi, set()).add(e[2])
+                        break
+    out = set()
+    for r, ls in fb.items():
+        if not any(_cname(c).endswith("::remove") and c["a"] and c["a"][0][0] in ("c", "m") and c["a"][0][1][0] in ls
+                   for _, c in b.calls()):
+            continue
+        d = _derived(b, ls)
+        for h, body in loops.items():
+            if not any(bi in body and _cname(c).endswith("::next") and c["a"] and c["a"][0][0] in ("c", "m") and
+                       c["a"][0][1][0] in d for bi, c in b.calls()):
+                continue
+            for bi in body:
+                for f in per_block.get(bi, ()):
+                    if f != r:
+                        out.add((r, f))
+    return out
+
+
+def _insert_blocks(b, f):
+    ls = _self_field_borrows(b).get(f)
+    if not ls:
+        return set()
+    d = _derived(b, ls)
+    return {bi for bi, c in b.calls() if _cname(c).endswith(INSERTING) and c["a"] and c["a"][0][0] in ("c", "m") and
+            c["a"][0][1][0] in d}
+
+
+def reverse_map_complete(chk, F, rule):
+    """R08f: when remove(file_id) finds the entries of a map M through a per-file reverse map R (it loops over
+    self.R.remove(&file_id)), whatever inserts into M must register in R on every non-failing path -- otherwise the entry is
+    invisible to remove and survives its file.  Failure exits (`?` residuals) are exempt; private helpers are judged at
+    their callers."""
+    import cfgutil as _c
+    idx = index_types(F)
+    npairs = 0
+    for X, items in sorted(idx.items()):
+        rb = F.bodies.get(items.get("remove", ""))
+        if F.adts.get(X) is None or rb is None or X == DBINDEX:
+            continue
+        pairs = reverse_map_pairs(rb)
+        if not pairs:
+            continue
+        ms = [b for b in methods_of(F, X) if b.id not in (items.get("remove"), items.get("clear"))]
+        mids = {b.id for b in ms}
+
+        def exits(b):
+            succ = b.succ_map()
+            resid = {bi for bi, c in b.calls() if "FromResidual" in _cname(c)}
+            sub = [list(v) if k not in resid else [] for k, v in enumerate(succ)]
+            return set(b.returns()) & _c.reachable(sub, 0), resid
+
+        for (r, m) in sorted(pairs):
+            npairs += 1
+            must_r = set()
+            for _ in range(4):
+                for b in ms:
+                    ri = _insert_blocks(b, r) | {bi for bi, c in b.calls() if _cname(c) in must_r}
+                    if not ri:
+                        continue
+                    okr, resid = exits(b)
+                    succ = b.succ_map()
+                    sub = [[y for y in v if y not in ri and y not in resid] if k not in ri else [] for k, v in enumerate(succ)]
+                    if 0 in ri or not (_c.reachable(sub, 0) & okr):
+                        must_r.add(b.id)
+            incomplete = {}
+            for _ in range(6):
+                changed = False
+                for b in ms:
+                    if b.id in incomplete:
+                        continue
+                    mi = _insert_blocks(b, m) | {bi for bi, c in b.calls() if _cname(c) in incomplete}
+                    if not mi:
+                        continue
+                    ri = _insert_blocks(b, r) | {bi for bi, c in b.calls() if _cname(c) in must_r}
+                    okr, resid = exits(b)
+                    succ = b.succ_map()
+                    sub = [[y for y in v if y not in ri and y not in resid] if k not in ri else [] for k, v in enumerate(succ)]
+                    reach0 = _c.reachable(sub, 0)
+                    for x in sorted(mi - ri):
+                        if x in reach0 and (_c.reachable(sub, x) & okr):
+                            incomplete[b.id] = x
+                            changed = True
+                            break
+                if not changed:
+                    break
+            # a non-public helper is fine when every caller lives in this impl (then the caller was judged above)
+            callers = {}
+            for b2 in F.bodies.values():
+                for _, c in b2.calls():
+                    if _cname(c) in incomplete:
+                        callers.setdefault(_cname(c), set()).add(b2.id)
+            for b in ms:
+                inserts = bool(_insert_blocks(b, m)) or b.id in incomplete
+                if not inserts:
+                    continue
+                key = "%s.%s<-%s via %s" % (short(X), m, short(b.id), r)
+                if b.id not in incomplete:
+                    chk.ok(rule, key, {"rule": rule, "site": b.loc(), "verdict": "registers in `%s` on every non-failing path that inserts into `%s`" % (r, m)})
+                    continue
+                if b.get("vis") != "pub" and callers.get(b.id) and callers[b.id] <= mids:
+                    chk.ok(rule, key, {"rule": rule, "site": b.loc(), "verdict": "non-public helper; every caller is a method of the same index and is judged itself"})
+                    continue
+                ex = REVERSE_MAP_EXEMPT.get((short(X), m, short(b.id)))
+                if ex:
+                    chk.ok(rule, key, {"rule": rule, "site": b.loc(), "verdict": "exempt", "reason": ex})
+                    continue
+                chk.violation(rule, key,
+                              "%s::%s can insert into `%s` and return without registering in the per-file reverse map `%s`, which is the "
+                              "only way %s::remove finds entries of `%s`: such an entry survives the removal of its file"
+                              % (short(X), short(b.id), m, r, short(X), m),
+                              b.loc(), witness={"insert_block": incomplete[b.id], "reverse_map": r, "driven_field": m})
+    return npairs
+
+
+def fresh_ids(chk, F, ws, rule):
+    """R08g: a key under which an index inserts must not be computed from the current size of a container that remove() shrinks:
+    after one file is removed the size falls below ids that are still alive, and the next insert lands on another file's entry."""
+    idx = index_types(F)
+    n = 0
+    for X, items in sorted(idx.items()):
+        rb = F.bodies.get(items.get("remove", ""))
+        if F.adts.get(X) is None or rb is None or X == DBINDEX:
+            continue
+        shrunk = set(_self_field_borrows(rb))          # fields remove() borrows mutably
+        for b in methods_of(F, X):
+            if b.id in (items.get("remove"), items.get("clear")):
+                continue
+            # locals holding &self.f / &mut self.f for shrinking fields
+            src = {}
+            for blk in b.blocks:
+                for st in blk[1]:
+                    if st[0] == "a" and st[2][0] == "ref" and st[2][2][0] == 1 and len(st[1]) == 1:
+                        for e in st[2][2][1:]:
+                            if isinstance(e, list) and e[0] == "f":
+                                if e[2] in shrunk:
+                                    src[st[1][0]] = e[2]
+                                break
+            lens = [(bi, c, src[c["a"][0][1][0]]) for bi, c in b.calls() if _cname(c).endswith("::len") and c["a"] and
+                    c["a"][0][0] in ("c", "m") and c["a"][0][1][0] in src and len(c["d"]) == 1]
+            keys = [(bi, c) for bi, c in b.calls() if _cname(c).endswith(("::insert", "::entry")) and len(c["a"]) >= 2]
+            if not keys:
+                continue
+            n += 1
+            bad = None
+            for bi, c, fld in lens:
+                t = {c["d"][0]}
+                changed = True
+                while changed:
+                    changed = False
+                    for blk in b.blocks:
+                        for st in blk[1]:
+                            if st[0] == "a" and len(st[1]) == 1 and st[1][0] not in t and \
+                                    any(isinstance(x, list) and x and x[0] in ("c", "m") and x[1][0] in t for x in _flat_ops(st[2])):
+                                t.add(st[1][0])
+                                changed = True
+                        tt = blk[2]
+                        if tt[0] == "call" and len(tt[1]["d"]) == 1 and tt[1]["d"][0] not in t and \
+                                any(a[0] in ("c", "m") and a[1][0] in t for a in tt[1]["a"]) and \
+                                not _cname(tt[1]).endswith(("::insert", "::entry", "::get", "::get_mut", "::contains_key")):
+                            t.add(tt[1]["d"][0])
+                            changed = True
+                for kb, kc in keys:
+                    a = kc["a"][1]
+                    if a[0] in ("c", "m") and a[1][0] in t:
+                        bad = (fld, kc["l"])
+            key = "%s::%s" % (short(X), short(b.id))
+            chk.check(bad is None, rule, key,
+                      "%s derives the key of an insert from `%s.len()`, and %s::remove shrinks `%s`: after a removal the next key "
+                      "collides with an entry that is still alive (ids must come from a counter that never goes back)"
+                      % (key, bad[0] if bad else "", short(X), bad[0] if bad else ""),
+                      b.loc(bad[1] if bad else None), witness={"field": bad[0] if bad else None},
+                      sample={"rule": rule, "method": key, "verdict": "no insert key derives from the size of a shrinking container"})
+    return n
+
+
+def _flat_ops(rv):
+    out = []
+    for x in rv[1:]:
+        if isinstance(x, list):
+            if x and x[0] in ("c", "m", "k"):
+                out.append(x)
+            else:
+                for y in x:
+                    if isinstance(y, list) and y and y[0] in ("c", "m", "k"):
+                        out.append(y)
+    return out
+
+
 def run_c08(chk, F, tier):
     chk.rule("R08a", "for every impl LuaIndex for X: fields written by any &mut-self method of X are written by "
                      "`remove` or exempt (id allocators, configuration mirrors; table in rules/idx.py)")
@@ -523,6 +775,12 @@ def run_c08(chk, F, tier):
     chk.rule("R08e", "InFiled-attributed entries are filtered by file id on every iteration of remove's loop")
     n = infiled_filtered(chk, F, "R08e")
     chk.floor("InFiled-attributed index maps", n, 2)
+    chk.rule("R08f", "inserts into a map that remove() finds through a per-file reverse map register in that reverse map on every non-failing path")
+    n = reverse_map_complete(chk, F, "R08f")
+    chk.floor("reverse-map/driven-map pairs", n, 9)
+    chk.rule("R08g", "no insert key of an index is computed from the size of a container that remove() shrinks")
+    n = fresh_ids(chk, F, ws, "R08g")
+    chk.floor("index methods with keyed inserts", n, 20)
     chk.explanation = ("Write-set analysis over MIR of every method of every LuaIndex implementor: a field that the "
                        "add path can populate must be reachable by remove(file_id); delegation and call order are "
                        "checked on the CFG with must-pass-through. Decides coverage only, not pruning logic.")
@@ -617,6 +875,7 @@ def run_c10(chk, F, tier):
     chk.floor("DbIndex LuaIndex fields", n, 14)
     file_keyed_unconditional(chk, F, "R08d")
     infiled_filtered(chk, F, "R08e")
+    reverse_map_complete(chk, F, "R08f")
     n = remove_file_rule(chk, F, ws, "R10")
     chk.floor("Vfs fields with writers", n, 6)
     chk.explanation = ("Removal coverage (write sets), delegation (must-pass-through) and the Vfs removal path.")
